@@ -1,7 +1,7 @@
 (* C07 - growth is demand-gated. *)
-From Coq Require Import ZArith List Bool.
+From Coq Require Import ZArith Reals List Bool.
 From GCL Require Proofs.TablesOk.
-From GCL Require Import Base.F64 Model.Measure Model.Limits Proofs.LimitsBasic.
+From GCL Require Import Base.F64 Base.F64Facts Model.Measure Model.Limits Proofs.LimitsBasic Proofs.VegasSafe Proofs.GradSafe Proofs.GradRecover Proofs.VegasRecover.
 Import ListNotations.
 Open Scope Z_scope.
 
@@ -36,6 +36,39 @@ Proof.
   exact (fun Hd Hi => ltac:(unfold aimd_step; rewrite Hd; destruct (Z.leb_spec (a_limit a) (s_inflight s)); [reflexivity|exfalso; apply (Z.lt_irrefl (a_limit a)); eapply Z.le_lt_trans; eassumption])).
 Qed.
 Print Assumptions C07_aimd_recovers.
+
+(* Gradient recovery: from every state satisfying the safety invariant, a healthy saturated sample (drop-free, RTT in (0, 2^53) ns not above
+   the baseline, tolerance >= 1) that is not a probe step raises the reported estimate by at least the smallest queue allowance, up to the ceiling *)
+Theorem C07_gradient_recovers g Mx s o : GInv g Mx -> gsample_ok s -> s_drop s = false ->
+  healthy_rtt g s -> (1 <= R (g_tol g))%R ->
+  flt (of_int (s_inflight s)) (div (g_est g) two) = false ->
+  grad_step g s = Some o -> o_branch o <> 1 ->
+  Z.min (g_max g) (grad_est g + 4) <= grad_est (o_st o).
+Proof. exact (grad_recovers g Mx s o). Qed.
+Print Assumptions C07_gradient_recovers.
+
+(* ... hence n healthy saturated samples at a constant RTT with no probe step in between bring the estimate to min(max, est + 4n):
+   the ceiling is reached within (max - est)/4 samples *)
+Theorem C07_gradient_recovery_run Mx r ss g g' : GInv g Mx -> (1 <= R (g_tol g))%R ->
+  0 < r < 2^53 -> (feq (g_noload g) zero = true \/ (R (of_int r) <= R (g_noload g))%R) ->
+  Forall (healthy_sample Mx r) ss -> grad_run_noprobe g ss = Some g' ->
+  Z.min (g_max g) (grad_est g + 4 * Z.of_nat (length ss)) <= grad_est g'.
+Proof. exact (grad_recovery_run Mx r ss g g'). Qed.
+Print Assumptions C07_gradient_recovery_run.
+
+(* Vegas recovery with the default smoothing 1.0: a saturated drop-free sample at the baseline RTT (queue size 0) that is not a probe step
+   raises the reported estimate by at least 6 (= beta x log10(est) >= 6), up to the ceiling; n such samples reach min(max, est + 6n) *)
+Theorem C07_vegas_recovers v M s o : VInv v M -> sample_ok s -> v_smooth v = one -> vegas_healthy v s ->
+  vegas_step v s = Some o -> Z.min (v_max v) (vegas_est v + 6) <= vegas_est (o_st o).
+Proof. exact (vegas_recovers_s1 v M s o). Qed.
+Print Assumptions C07_vegas_recovers.
+
+Theorem C07_vegas_recovery_run M r ss v v' : VInv v M -> v_smooth v = one ->
+  0 < r < 2^53 -> fin (v_noload v) = true -> R (v_noload v) = IZR r ->
+  Forall (vhealthy_sample M r) ss -> vegas_run_noprobe v ss = Some v' ->
+  Z.min (v_max v) (vegas_est v + 6 * Z.of_nat (length ss)) <= vegas_est v'.
+Proof. exact (vegas_recovery_run_s1 M r ss v v'). Qed.
+Print Assumptions C07_vegas_recovery_run.
 
 (* Generated-fact obligation, re-checked on every run against Gen/Tables.v (dumped from /repo's limit/functions as built now):
    the lookup tables and the queue-size / log10 functions agree with the model's closed forms on the table,
